@@ -13,6 +13,23 @@ import uuid
 SCRATCH = os.environ.get("PYVC_SCRATCH") or os.path.join(tempfile.gettempdir(), "pyvc_e2e")
 
 
+def write_helper(name, source):
+    """put a helper module into SCRATCH (importable by generated code).  Several checks may run at the same time and share
+    SCRATCH: the file is replaced atomically, and left alone when it already has this content"""
+    os.makedirs(SCRATCH, exist_ok=True)
+    path = os.path.join(SCRATCH, name + ".py")
+    try:
+        if open(path).read() == source:
+            return path
+    except OSError:
+        pass
+    fd, tmp = tempfile.mkstemp(prefix=name + "_", suffix=".tmp", dir=SCRATCH)
+    with os.fdopen(fd, "w") as f:
+        f.write(source)
+    os.replace(tmp, path)
+    return path
+
+
 class Generated:
     def __init__(self, root, pkg_name, files):
         self.root, self.pkg_name, self.files = root, pkg_name, files
